@@ -114,11 +114,48 @@ def big_world(seed, i):
     return world
 
 
+def same_inode_world(seed, i):
+    """trash-restore where what stands at the original location is the payload itself under another name (a hard link of it,
+    a symbolic link to it), with and without --overwrite: rename(2) between two names of one inode does nothing and reports
+    success - the info file must not go unless the payload went"""
+    from ..model import W
+    from ..sandbox import MODEL_ROOT as R
+    rng = task_rng("C15same", seed, i)
+    w = W()
+    home = w.dir(R + b"/home/u")
+    t = home + b"/.local/share/Trash"
+    w.dir(t, 0o700)
+    w.dir(t + b"/files", 0o700)
+    w.dir(t + b"/info", 0o700)
+    entries = []
+    for j, nm in enumerate([b"a", b"keep me"][:rng.choice([1, 2])]):
+        loc = home + b"/docs/" + nm
+        w.file(t + b"/info/" + nm + b".trashinfo", b"[Trash Info]\nPath=" + loc.replace(b" ", b"%20") + b"\nDeletionDate=2021-01-0%dT00:00:00\n" % (j + 1), 0o600)
+        w.file(t + b"/files/" + nm, b"payload %d" % j, 0o640)
+        pn = w.nodes[t + b"/files/" + nm]
+        if j == 0:
+            if i % 2 == 0:
+                w.file(loc, pn["data"], pn["mode"])
+                w.nodes[loc].update(mtime=pn["mtime"], hardlink=t + b"/files/" + nm)
+            else:
+                w.link(loc, t + b"/files/" + nm)
+        entries.append({"tdir": t, "name": nm, "loc": loc, "rec": loc, "date": "2021-01-0%dT00:00:00" % (j + 1), "base": None,
+                        "dest": "hardlink-of-payload" if (j == 0 and i % 2 == 0) else ("link-to-payload" if j == 0 else None)})
+    opts = {"path": b"/", "sort": "date", "overwrite": (i // 2) % 2 == 0}
+    world = w.world(env={"HOME": home}, uid=1000, cwd=home, cmd="restore", opts=opts, args=[], stdin=b"0-%d\n" % (len(entries) - 1),
+                    meta={"entries": entries, "tdirs": [(t, None)], "profile": "same-inode", "payload_kinds": ["file"], "sentinels": []})
+    world["argv"] = cmd_argv(world)
+    return world
+
+
 def run(tier, seed):
     ck = Check("C15", tier, seed)
     info = audit("C15")
     results = run_tasks(eval_task, tasks_for("C15", seed, CFG, 150 if tier == "quick" else 2500))
     absorb(ck, results, CFG)
+    same_cfg = dict(CFG, tweak=None, violations=("crash15", "effects"))
+    absorb(ck, run_tasks(eval_task, [{"pid": "C15", "seed": seed, "i": 0, "cfg": same_cfg, "world": same_inode_world(seed, i)}
+                                     for i in range(8 if tier == "quick" else 40)]), same_cfg)
     big_cfg = dict(CFG, tweak=None, interrupt_sweep=0)
     absorb(ck, run_tasks(eval_task, [{"pid": "C15", "seed": seed, "i": 1, "cfg": big_cfg, "world": big_world(seed, i)}
                                      for i in range(2 if tier == "quick" else 12)]), big_cfg)
